@@ -1184,7 +1184,7 @@ static int judge(const int *calls, const long *fails, char *msg, size_t n) {
         snprintf(msg, n, "allocator ledger after the execution: %ld live blocks, %ld double/foreign frees", lg_live, lg_errors);
         return 1;
     }
-    if (static_changed || static_hash() != base_hash) {
+    if (!getenv("C18_NOSTATIC") && (static_changed || static_hash() != base_hash)) {  // C18_NOSTATIC: demonstration aid only (shows the output oracle alone)
         snprintf(msg, n, "library-owned static storage (.data/.bss of the library objects) changed during the execution: the library keeps mutable global state");
         return 1;
     }
